@@ -2,11 +2,69 @@
 CORE = ["src/endpoints/core.c", "src/byte-buffer.c"]
 
 INFO = {
-    "explanation": "",
-    "bounds": {},
-    "outside_bounds": [],
-    "stubs": [],
-    "assumptions": [],
+    "explanation":
+        "src/endpoints/core.c (with the real src/byte-buffer.c, and src/endpoints/buffer.c + trivial.c for the "
+        "buffer-backed instances) is executed symbolically by CBMC against SCRIPTED drivers (harness/C17/c17_drv.h): "
+        "a driver is a position in an octet array plus a behaviour script taken from the input struct; per call the "
+        "script answers 'move min(count, asked) octets' (1, 2, k, all), 0, -EINTR, -EAGAIN (at most STALL non-progress "
+        "answers per driver, afterwards such an entry moves octets) or a hard error with a symbolic code (any negative "
+        "int except -EINTR/-EAGAIN, so -ENOMEM/-ENODATA/-EIO are included). A source whose stream ends answers -ENODATA. "
+        "The stub never assumes a call away; it ASSERTS that the code never asks for more octets than the operation was "
+        "told to move, never calls again after a hard error / the end of the stream (one sticky extra call is tolerated "
+        "for an octet source behind the auxiliary-buffer operations, where an at-most read must first hand out the octets "
+        "it already took), and never needs more calls than octets + STALL + 1. Oracle = fold of the script, written from "
+        "the property text: c17_get_*/c17_put_* (source_get_chunk / sink_put_chunk; octet and chunk driver): N == 0 or "
+        "N > SSIZE_MAX => -EINVAL with no driver call and nothing written; hard error => returned unchanged; otherwise "
+        "returns N, destination/sink holds exactly the next N octets in order, position advanced by exactly N, nothing "
+        "outside the N octets written, the caller's buffer is not modified. c17_*_atmost_*: never more than asked, a "
+        "non-negative return is the count moved and those octets are the next ones in order, no error unless a driver "
+        "reported one. c17_sts_<op>_<src>_<snk>: all eleven sts_* entry points between a scripted source and a scripted "
+        "sink (getbuffer extension NULL as in every shipped endpoint): the sink always holds a prefix of the stream; "
+        "counted operations succeed iff exactly N octets arrived (source advanced by exactly N), must succeed when no "
+        "driver call failed, must fail after a hard error or an early end of the stream; drain operations move "
+        "everything up to the source's end when nothing but that end stops them; at-most operations return the count "
+        "that arrived without losing an octet taken from the source; octets of the auxiliary buffer's memory outside "
+        "data[offset..used) (some/atmost) resp. data[0..used) (n/drain, which rewind) and the guard octets around it "
+        "are untouched. c17_buf_*/c17_chunks_*/c17_trivial_*/c17_plumb_*: source_from_buffer, source_from_chunks, "
+        "sink_to_buffer, source_zero/source_empty/sink_null through the public API and sts_* between real buffer "
+        "endpoints, compared with the byte-buffer FIFO model of C18.",
+    "bounds": {
+        "quick": {"get/put/at-most": "N 0..3 and every N > SSIZE_MAX, STALL 2 per run, scripts of 6 calls, octet and "
+                                     "chunk driver, any stream/destination contents, any hard error code",
+                  "sts_*": "count 0..3, stream of 0..4 octets (auxiliary-buffer operations: 0..2 and 0..3), STALL 1 per "
+                           "driver, scripts of 6 (5) calls per driver, "
+                           "aux buffer size 1..2 with every valid (used, offset) and a non-empty region; driver pairs "
+                           "octet/octet and chunk/chunk",
+                  "buffer endpoints": "buffers of 1..3 octets in every valid state, operands 0..4; ByteChunks of 2 "
+                                      "chunks x 0..2 unread octets, every `active`, every n 1..4 (enumerated)"},
+        "thorough": {"get/put/at-most": "N 0..6 and every N > SSIZE_MAX, STALL 3, scripts of 10 calls",
+                     "sts_*": "count 0..6 and stream 0..7 (auxiliary-buffer operations: 0..3 and 0..4), STALL 2 (1 for "
+                              "sts_n_aux/sts_drain_aux), aux buffer 1..3, "
+                              "all four driver-style pairs",
+                     "buffer endpoints": "buffers 1..5, operands 0..6, 3 chunks x 0..2 unread octets; plus "
+                                         "sts_n_aux/sts_drain_aux between real buffer endpoints"},
+    },
+    "outside_bounds": [
+        "drivers that stall more than STALL times per run (unbounded stalling legitimately never terminates)",
+        "counts/streams above the stated sizes; N in NMAX+1..SSIZE_MAX (the caller would have to own that many octets)",
+        "endpoints that implement the getbuffer extension (no shipped endpoint does; sts_atmost_via_sink / "
+        "sts_atmost_via_source are only reached up to their NULL test)",
+        "auxiliary buffer with an empty region (used == offset), sts_atmost_aux/sts_atmost with n == 0, at-most "
+        "variants with n == 0 or n > SSIZE_MAX (the property text is silent)",
+        "drivers that break their contract (return more than asked, octet driver returning > 1)",
+        "the 'random long transfers with random scripts' part of the quantifier (bounded model checking only)",
+        "file-descriptor endpoints (posix.c), instrumentable and continuable endpoints (other properties)",
+    ],
+    "stubs": ["scripted source/sink drivers (harness/C17/c17_drv.h) replace real media",
+              "memcpy/memmove/memset: exact byte loops (harness/lib/libc_models.c)"],
+    "assumptions": [
+        "drivers follow the contract in core.c's header comment: return the number of octets moved (<= asked), 0, "
+        "-EINTR/-EAGAIN without moving anything, or a negative error without moving anything; hard errors and the end "
+        "of a stream are sticky",
+        "c17_chunks_source enumerates chunk layout, active, n and operation with concrete loops (octet values stay "
+        "symbolic) because CBMC 6.11 mis-merges the block-scope variable of read_from_chunks' backward goto when "
+        "iterations are merged symbolically (spurious counterexamples only, observed and isolated)",
+    ],
 }
 
 
@@ -23,8 +81,8 @@ def _getput(tier):
             # (chunk driver) or one round in total (octet driver: the adaptor
             # loop does the rounds) + the round in which a breach is answered
             outer = slen + 2 if kind == "chunk" else 3
-            uw = {"c17_script_ok": slen + 1, "c17_drv_init": slen + 1, "c17_call": nmax + 1,
-                  "c17_same": nmax + 1, "c17_frame": nmax + 5, "harness": nmax + 5,
+            uw = {"c17_script_ok": slen + 1, "c17_src_init": slen + 1, "c17_snk_init": slen + 1,
+                  "c17_src_call": nmax + 1, "c17_snk_call": nmax + 1, "c17_same": nmax + 1, "c17_frame": nmax + 5, "harness": nmax + 5,
                   "source_get_chunk": outer, "sink_put_chunk": outer,
                   "source_adapt": slen + 2, "sink_adapt": slen + 2}
             out.append(mk("c17_%s_%s_n%d" % (op.lower(), kind, nmax), "C17/c17_getput.c", CORE, d,
@@ -37,32 +95,85 @@ STS_OPS = ("CBC", "SOME", "ATMOST", "SOME_AUX", "ATMOST_AUX", "N_CBC", "N", "N_A
 
 
 def _sts(tier):
-    nmax, stall, auxmax = (3, 2, 3) if tier == "quick" else (5, 3, 4)
-    slen = (nmax + 1) + stall + 1
     out = []
     for op in STS_OPS:
+        nmax, stall, auxmax = (2, 1, 2) if tier == "quick" else (3, 2, 3)
+        if tier != "quick" and op in ("N_AUX", "DRAIN_AUX"):
+            stall = 1  # rounds x adaptor loops x retry loops: the most expensive instances
+        if not op.endswith("_AUX"):
+            nmax = 3 if tier == "quick" else 6  # no nested retry loops: cheap
+        smax = nmax + 1
+        slen = smax + stall + 1
         for sk in ("octet", "chunk"):
             for kk in ("octet", "chunk"):
+                if tier == "quick" and sk != kk:
+                    continue  # the two sides are independent code paths; mixed pairs: thorough
                 d = {"OP_" + op: None, "NMAX": nmax, "STALL": stall, "AUXMAX": auxmax}
                 if sk == "octet":
                     d["SRC_OCTET"] = None
                 if kk == "octet":
                     d["SNK_OCTET"] = None
                 aux = op.endswith("_AUX")
-                per_op = (auxmax if aux else 1) + stall + 3
-                uw = {"c17_script_ok": slen + 1, "c17_drv_init": slen + 1,
-                      "c17_call": (auxmax if aux else 1) + 1,
-                      "c17_same": nmax + 2, "c17_frame": auxmax + 5, "harness": max(auxmax + 5, nmax + 2),
+                m = auxmax if aux else 1  # largest request a driver sees
+                # Bounds are "iterations of the repaired code + 1"; a tree that needs more rounds
+                # trips an unwinding assertion (reported, never a pass).
+                retry = m + stall + 1     # rounds of a retry loop: progress + stalls
+                uw = {"c17_script_ok": slen + 1, "c17_src_init": slen + 1, "c17_snk_init": slen + 1,
+                      "c17_src_call": m + 1, "c17_snk_call": m + 1, "c17_same": smax + 1, "c17_frame": auxmax + 5, "harness": max(auxmax + 5, smax + 1),
                       "memcpy": 33, "memmove": auxmax + 1,
-                      "source_get_chunk": 3 if sk == "octet" else per_op,
-                      "sink_put_chunk": 3 if kk == "octet" else per_op,
-                      "source_adapt": per_op, "sink_adapt": per_op}
-                for f in ("sts_n_cbc", "sts_drain_cbc", "sts_n", "sts_drain", "sts_n_aux", "sts_drain_aux"):
-                    uw[f] = slen + 2
+                      # octet driver: the adaptor loop does the rounds, the API loop runs once
+                      "source_get_chunk": 2 if sk == "octet" else retry,
+                      "sink_put_chunk": 2 if kk == "octet" else retry,
+                      "source_adapt": retry, "sink_adapt": retry,
+                      "sts_cbc": stall + 2,
+                      "sts_n_cbc": nmax + 1, "sts_n": nmax + 1, "sts_n_aux": nmax + stall + 2,
+                      "sts_drain_cbc": smax + 2, "sts_drain": smax + 2, "sts_drain_aux": smax + stall + 2}
                 out.append(mk("c17_sts_%s_%s_%s_n%d" % (op.lower(), sk, kk, nmax), "C17/c17_sts.c", CORE, d,
                               unwind=uw, default_unwind=2, fp_removal=True))
     return out
 
 
+BUF = CORE + ["src/endpoints/buffer.c", "src/endpoints/trivial.c"]
+
+
+def _bufeps(tier):
+    sz, nch, szc = (3, 2, 2) if tier == "quick" else (5, 3, 2)
+    total = nch * szc
+    nop = sz + 1
+    big = total + nop + 4 + 1
+    layouts = (szc + 1) ** nch
+    out = []
+    base = {"SZ": sz, "NCH": nch, "SZC": szc, "LAYOUTS": layouts}
+    uw = {"same": max(total, nop) + 1, "frame": big, "harness": max(big, layouts + 1),
+          "chunks_stream": max(nch, szc) + 1,
+          "memcpy": nop + 1, "memmove": sz + 1, "memset": nop + 1,
+          # every round of the retry loops moves >= 1 octet or ends with an error
+          "source_get_chunk": nop + 2, "sink_put_chunk": nop + 2,
+          "read_from_chunks": nch + 2}
+    for mode in ("BUF_SOURCE", "CHUNKS_SOURCE", "BUF_SINK", "TRIVIAL"):
+        d = dict(base)
+        d["MODE_" + mode] = None
+        out.append(mk("c17_%s_sz%d" % (mode.lower(), sz), "C17/c17_bufeps.c", BUF, d,
+                      unwind=uw, default_unwind=2, fp_removal=True,
+                      object_bits=12 if mode == "CHUNKS_SOURCE" else None))
+    names = ("n", "n_cbc", "n_aux", "drain", "drain_cbc", "drain_aux")
+    for op in range(6):
+        if tier == "quick" and op in (2, 5):
+            continue  # auxiliary-buffer plumbing over real endpoints: thorough (scripted: c17_sts_*_aux)
+        d = dict(base)
+        d["MODE_PLUMB"] = None
+        d["PLUMB_OP"] = op
+        u = dict(uw)
+        # the buffer endpoints take or give everything they are asked for at once
+        # (memcpy: sts_atmost_aux copies the 32-octet ByteBuffer descriptor)
+        u.update({"source_get_chunk": 3, "sink_put_chunk": 3, "memcpy": 33 if op in (2, 5) else nop + 1})
+        rounds = sz + 3
+        for f in ("sts_n_cbc", "sts_drain_cbc", "sts_n", "sts_drain", "sts_n_aux", "sts_drain_aux"):
+            u[f] = rounds
+        out.append(mk("c17_plumb_%s_sz%d" % (names[op], sz), "C17/c17_bufeps.c", BUF, d,
+                      unwind=u, default_unwind=2, fp_removal=True))
+    return out
+
+
 def instances(tier):
-    return _getput(tier) + _sts(tier)
+    return _getput(tier) + _sts(tier) + _bufeps(tier)
